@@ -126,7 +126,8 @@ impl<V> CacheEntry<V> {
         Self {
             value,
             created_at: now,
-            expires_at: Some(now + ttl),
+            // A TTL that ends beyond what the clock can represent never ends
+            expires_at: now.checked_add(ttl),
             size_bytes,
         }
     }
